@@ -158,6 +158,18 @@ def concrete_playback(ws, cfg, h, target_dir):
 
 
 def run_unit(repo, unit, cfg, wd, tier='quick', prop=None):
+    import fcntl
+    os.makedirs(CACHE, exist_ok=True)
+    lock = open(os.path.join(CACHE, 'kani-target-' + cfg.get('cache_key', unit)) + '.lock', 'w')
+    fcntl.flock(lock, fcntl.LOCK_EX)
+    try:
+        return run_unit_locked(repo, unit, cfg, wd, tier, prop)
+    finally:
+        fcntl.flock(lock, fcntl.LOCK_UN)
+        lock.close()
+
+
+def run_unit_locked(repo, unit, cfg, wd, tier='quick', prop=None):
     cfg = dict(cfg)
     cfg['name'] = unit
     res = {'unit': unit, 'kind': 'kani', 'status': 'ok', 'failed': [], 'undecided': [], 'framework_errors': [],
@@ -176,6 +188,10 @@ def run_unit(repo, unit, cfg, wd, tier='quick', prop=None):
         return res
     os.makedirs(CACHE, exist_ok=True)
     target_dir = os.path.join(CACHE, 'kani-target-' + cfg.get('cache_key', unit))
+    # One user per target directory at a time: Kani keeps its goto binaries / metadata under <target>/kani keyed by crate name,
+    # so two runs that compile DIFFERENT sources of the same crate into one target directory (two ./check processes, or two
+    # units sharing a cache key) overwrite each other's artefacts and produce garbage verdicts (seen: spurious pointer failures).
+    # (run_unit holds <target_dir>.lock for the whole unit, concrete playback included)
     # first harness alone (builds dependencies), the rest in parallel
     results = [run_harness(ws, cfg, hs[0], target_dir, tier)]
     if len(hs) > 1:
